@@ -77,6 +77,11 @@ def run(ctx):
     for i in range(ndefs):
         d = gen.gen_definition(ctx.rng, n_control=ctx.rng.choice([0, 1, 2, 3]), n_sensors=0, transcend=(i % 6 == 5))
         process, sensor = eh.make_noises(ctx.rng, d)
+        if i % 4 == 2:
+            # very small (but positive) per-control noises: the noise given is the noise used, whatever its magnitude
+            from fractions import Fraction as _F
+            process = {n: _F(j + 1, ctx.rng.choice([2 ** 22, 10 ** 8, 3 * 10 ** 10])) for j, n in enumerate(sorted(process))}
+            ctx.count("tiny_process_noise")
         pts = [gen.gen_point(ctx.rng, d) for _ in range(npts)]
         cal = pts[0]["cal"]
         cse = ctx.rng.random() < 0.5
